@@ -12,12 +12,13 @@ Proof. intros s s1 s2 A B. unfold Wd in *. congruence. Qed.
 
 Section World.
 Variable p : program.
+Variables tord bord : state -> node -> list node -> list node.
 
-Notation mquery := (query_for p None).
-Notation mexecute := (execute p None).
-Notation meval := (eval p None).
-Notation mrepair := (repair p None).
-Notation mbackward := (backward p None).
+Notation mquery := (query_for_o p None tord bord).
+Notation mexecute := (execute_o p None tord bord).
+Notation meval := (eval_o p None tord bord).
+Notation mrepair := (repair_o p None tord bord).
+Notation mbackward := (backward_o p None tord bord).
 
 Definition mworld_query (f : nat) : Prop :=
   forall stk c fr n s o fr' m' s', mquery f stk c fr n s = Ok (o, fr', m', s') -> Wd s s'.
@@ -33,7 +34,7 @@ Definition mworld_backward (f : nat) : Prop :=
   forall stk n s s', mbackward f stk n s = Ok s' -> Wd s s'.
 
 Lemma mworld_tfc : forall f stk, mworld_query f ->
-  forall ts s s', mtfc p f stk ts s = Ok s' -> Wd s s'.
+  forall ts s s', mtfc p tord bord f stk ts s = Ok s' -> Wd s s'.
 Proof.
   intros f stk IHq. induction ts as [|t r IH]; intros s s' H; cbn [mtfc] in H.
   - inversion H. subst. apply Wd_refl.
@@ -41,7 +42,7 @@ Proof.
     apply IHq in Eq. eapply Wd_trans; [exact Eq|]. apply IH. exact H.
 Qed.
 Lemma mworld_bp : forall f stk, mworld_query f ->
-  forall ts s s', mbp p f stk ts s = Ok s' -> Wd s s'.
+  forall ts s s', mbp p tord bord f stk ts s = Ok s' -> Wd s s'.
 Proof.
   intros f stk IHq. induction ts as [|t r IH]; intros s s' H; cbn [mbp] in H.
   - inversion H. subst. apply Wd_refl.
@@ -51,7 +52,7 @@ Qed.
 
 Lemma mworld_walk : forall f n stk pd i, mworld_query f ->
   forall cs rtfc cleaned fr ms s d fr' ms' s1,
-    mwalk p f n stk pd i cs rtfc cleaned fr ms s = Ok (d, fr', ms', s1) -> Wd s s1.
+    mwalk p tord bord f n stk pd i cs rtfc cleaned fr ms s = Ok (d, fr', ms', s1) -> Wd s s1.
 Proof.
   intros f n stk pd i IHq. induction cs as [|cal r IH]; intros rtfc cleaned fr ms s d fr' ms' s1 H; cbn [mwalk] in H.
   - inversion H. subst. apply Wd_refl.
@@ -64,8 +65,8 @@ Proof.
         destruct (negb (i_value ci =? ov)).
         -- inversion H. subst. apply Wd_refl.
         -- eapply IH. exact H.
-      * match type of H with context [query_for p None f ?a ?b ?c ?d ?e] =>
-          destruct (query_for p None f a b c d e) as [[[[o fr1] m1] s']| | |] eqn:Eq; try discriminate end.
+      * match type of H with context [query_for_o p None tord bord f ?a ?b ?c ?d ?e] =>
+          destruct (query_for_o p None tord bord f a b c d e) as [[[[o fr1] m1] s']| | |] eqn:Eq; try discriminate end.
         apply IHq in Eq.
         destruct (get_info s' cal) as [ci|]; [|discriminate].
         destruct (negb (i_value ci =? ov)).
@@ -88,12 +89,12 @@ Proof.
       destruct (fast_path s c' fr1 n) as [[v|sp] fr2] eqn:Ef.
       { inversion H. subst. apply Wd_refl. }
       pose proof (fast_path_slow _ _ _ _ _ _ Ef) as Hsp.
-      destruct (mq_tfc p f stk c' sp n s) as [s1| | |] eqn:Et; try discriminate.
+      destruct (mq_tfc p tord bord f stk c' sp n s) as [s1| | |] eqn:Et; try discriminate.
       assert (M1 : Wd s s1).
       { unfold mq_tfc in Et. destruct c'; destruct sp; try (inversion Et; subst; apply Wd_refl);
           (destruct (get_info s n); [|inversion Et; subst; apply Wd_refl]);
           eapply mworld_tfc; eauto. }
-      destruct (mq_process p f stk c' sp n s1) as [[marks s2]| | |] eqn:Ep; try discriminate.
+      destruct (mq_process p tord bord f stk c' sp n s1) as [[marks s2]| | |] eqn:Ep; try discriminate.
       assert (M2 : Wd s1 s2).
       { assert (Hgen : match get_info s1 n with
                        | Some i => if (i_verified i =? s_ts s1)%N then Ok ([], s1) else mrepair f stk c' n s1
@@ -130,7 +131,7 @@ Proof.
       rewrite K. exact M1. }
     assert (He : mworld_eval (S f)).
     { assert (Hbin : forall stk me a b op fr s o fr' m' s',
-                mbin p f stk me a b op fr s = Ok (o, fr', m', s') -> Wd s s').
+                mbin p tord bord f stk me a b op fr s = Ok (o, fr', m', s') -> Wd s s').
       { intros stk me a b op fr s o fr' m' s' H. unfold mbin in H.
         destruct (meval f stk me a fr s) as [[[[x fr1] m1] s1]| | |] eqn:E1; try discriminate.
         apply IHe in E1. destruct x.
@@ -138,20 +139,20 @@ Proof.
           apply IHe in E2. destruct y; inversion H; subst; eapply Wd_trans; eauto.
         - inversion H. subst. exact E1. }
       assert (Hread : forall stk me n fr s o fr' m' s',
-                mread p f stk me n fr s = Ok (o, fr', m', s') -> Wd s s').
+                mread p tord bord f stk me n fr s = Ok (o, fr', m', s') -> Wd s s').
       { intros stk me n fr s o fr' m' s' H. unfold mread in H.
         destruct (mquery f stk me (Some fr) n s) as [[[[o1 fr1] m1] s1]| | |] eqn:E1; try discriminate.
         apply IHq in E1. destruct o1 as [[z|]|]; inversion H; subst; exact E1. }
       assert (Hgrp : forall stk me ns acc fr ms s o fr' m' s',
-                mgroup p f stk me ns acc fr ms s = Ok (o, fr', m', s') -> Wd s s').
+                mgroup p tord bord f stk me ns acc fr ms s = Ok (o, fr', m', s') -> Wd s s').
       { intros stk me. induction ns as [|n r IHn]; intros acc fr ms s o fr' m' s' H; cbn [mgroup] in H.
         - inversion H. subst. apply Wd_refl.
-        - destruct (mread p f stk me n fr s) as [[[[x fr1] m1] s1]| | |] eqn:E1; try discriminate.
+        - destruct (mread p tord bord f stk me n fr s) as [[[[x fr1] m1] s1]| | |] eqn:E1; try discriminate.
           apply Hread in E1. destruct x.
           + eapply Wd_trans; [exact E1|]. eapply IHn; eauto.
           + inversion H. subst. exact E1. }
       red. intros stk me e fr s o fr' m' s' H.
-      rewrite (eval_S p f stk me e fr s) in H. destruct e.
+      rewrite (eval_S p tord bord f stk me e fr s) in H. destruct e.
       + inversion H. subst. apply Wd_refl.
       + eapply Hread; eauto.
       + eapply Hbin; eauto.
@@ -161,27 +162,27 @@ Proof.
       + eapply Hbin; eauto.
       + destruct (meval f stk me e1 fr s) as [[[[x fr1] m1] s1]| | |] eqn:E1; try discriminate.
         apply IHe in E1. destruct x.
-        * match type of H with context [eval p None f ?a ?b ?c ?d ?e] =>
-            destruct (eval p None f a b c d e) as [[[[y fr2] m2] s2]| | |] eqn:E2; try discriminate end.
+        * match type of H with context [eval_o p None tord bord f ?a ?b ?c ?d ?e] =>
+            destruct (eval_o p None tord bord f a b c d e) as [[[[y fr2] m2] s2]| | |] eqn:E2; try discriminate end.
           apply IHe in E2. inversion H. subst. eapply Wd_trans; eauto.
         * inversion H. subst. exact E1.
-      + destruct (mgroup p f stk me ns 0 (fr_set_unordered fr true) [] s) as [[[[x fr1] m1] s1]| | |] eqn:E1; try discriminate.
+      + destruct (mgroup p tord bord f stk me ns 0 (fr_set_unordered fr true) [] s) as [[[[x fr1] m1] s1]| | |] eqn:E1; try discriminate.
         inversion H. subst. eapply Hgrp; eauto. }
     assert (Hr : mworld_repair (S f)).
     { red. intros stk c n s m' s' H. rewrite repair_S in H.
       destruct (get_info s n) as [i|] eqn:Eg; [|discriminate]. cbv zeta in H.
-      destruct (mwalk p f n stk (x_pedantic c) i (all_callees (i_fwd i)) false [] empty_frame [] s)
+      destruct (mwalk p tord bord f n stk (x_pedantic c) i (all_callees (i_fwd i)) false [] empty_frame [] s)
         as [[[[d fr1] marks] s1]| | |] eqn:Ew; try discriminate.
       apply (mworld_walk _ _ _ _ _ IHq) in Ew.
       destruct d as [|[|] cl].
-      - match type of H with context [execute p None f ?a ?b ?c ?d ?e ?g] =>
-          destruct (execute p None f a b c d e g) as [[m2 s2]| | |] eqn:Ex; try discriminate end.
+      - match type of H with context [execute_o p None tord bord f ?a ?b ?c ?d ?e ?g] =>
+          destruct (execute_o p None tord bord f a b c d e g) as [[m2 s2]| | |] eqn:Ex; try discriminate end.
         inversion H. subst. eapply Wd_trans; [exact Ew|]. eapply IHx; eauto.
       - inversion H. subst. eapply Wd_trans; [exact Ew|]. unfold Wd. apply clean_query_world.
       - inversion H. subst. eapply Wd_trans; [exact Ew|]. unfold Wd. apply clean_query_world. }
     assert (Hb : mworld_backward (S f)).
     { red. intros stk n s s' H. rewrite backward_S in H. cbv zeta in H.
-      destruct (mbp p f stk (proj_callers s n) s) as [s1| | |] eqn:Eb; try discriminate.
+      destruct (mbp p tord bord f stk (bord s n (proj_callers s n)) s) as [s1| | |] eqn:Eb; try discriminate.
       inversion H. subst. pose proof (mworld_bp _ _ IHq _ _ _ Eb) as M1.
       eapply Wd_trans; [exact M1|]. unfold Wd, clear_pending. destruct (get_info s1 n); reflexivity. }
     auto.
